@@ -1,0 +1,19 @@
+//go:build verif
+
+// Machine-checked contracts (comments only) for the size rounding shared by
+// the compile-time size computation (C08); read by /verif/govc. Agreement of
+// the three size computations over type shapes is NOT decided by contract (the
+// computations recurse over go/types graphs and the LLVM data layout, outside
+// the verifier's subset); it is checked as a BOUNDED enumeration
+// (/verif/harness/c08_sizes_test.go).
+
+package ssa
+
+//@ func align
+//@ props C08
+//@ requires pow2: a > 0 && a&(a-1) == 0
+//@ requires range: 0 <= x && x <= 0x7fffffffffffffff - a
+//@ ensures C08 rounds-up: result >= x && result - x < a
+//@ ensures C08 aligned: result&(a-1) == 0
+//@ ensures C08 least: x&(a-1) == 0 ==> result == x
+//@ modifies nothing
